@@ -1710,6 +1710,7 @@ static Type check_expression_impl(ASTNode *expr, Environment *env) {
                         }
                         passed_sig.return_type = passed_func->return_type;
                         passed_sig.return_struct_name = passed_func->return_struct_type_name;
+                        passed_sig.return_fn_sig = passed_func->return_fn_sig;
                         
                         /* Compare signatures */
                         if (!function_signatures_equal(func->params[i].fn_sig, &passed_sig)) {
